@@ -281,6 +281,20 @@ def register(lib):
         c.ghost.setdefault('npall', []).append((b, a))
         return SBool(b)
     E['numpy.all'] = np_all
+
+    def np_count_nonzero(I, a, axis=None):
+        # weak model (AX-NP-COUNT): some integer between 0 and the number of elements
+        a = untag(a)
+        if not isinstance(a, SArray) or axis is not None:
+            raise Unsupported('np.count_nonzero')
+        c = cur()
+        n = c.sym_int('count_nonzero', lo=0)
+        tot = 1
+        for d in a.shape:
+            tot = ops_binop('*', tot, d)
+        c.assume(ops_cmp('<=', n, tot))
+        return n
+    E['numpy.count_nonzero'] = np_count_nonzero
     lib.np_all = np_all
 
     def np_array_equal(I, a, b):
